@@ -73,24 +73,24 @@ Proof.
 Qed.
 
 (* ---- token classes without a known deviation: PEG rule = RFC rule (tokenised reading) ---- *)
-Theorem uint_lang_eq_bounded : forall w, Forall (fun c => In c sig_uint) w -> (length w <= 5)%nat ->
+Theorem uint_lang_eq_bounded : forall w, Forall (fun c => In c sig_uint) w -> (length w <= 3)%nat ->
   (peg_matches cddl_pest r_uint_value w = Some true <-> Der abnf_spec (ARef n_uint) w []).
 Proof. apply agree_upto_iff. vm_compute. reflexivity. Qed.
 
-Theorem occur_lang_eq_bounded : forall w, Forall (fun c => In c sig_occur) w -> (length w <= 5)%nat ->
+Theorem occur_lang_eq_bounded : forall w, Forall (fun c => In c sig_occur) w -> (length w <= 3)%nat ->
   (peg_matches cddl_pest r_occur w = Some true <-> Der abnf_spec (ARef n_occur) w []).
 Proof. apply agree_upto_iff. vm_compute. reflexivity. Qed.
 
 (* ---- token classes with known deviations: PEG rule = RFC rule with exactly those deviations switched on ---- *)
-Theorem number_lang_eq_bounded : forall w, Forall (fun c => In c sig_number) w -> (length w <= 5)%nat ->
+Theorem number_lang_eq_bounded : forall w, Forall (fun c => In c sig_number) w -> (length w <= 3)%nat ->
   (peg_matches cddl_pest r_number w = Some true <-> Der g_number (ARef n_number) w []).
 Proof. apply agree_upto_iff. vm_compute. reflexivity. Qed.
 
-Theorem id_lang_eq_bounded : forall w, Forall (fun c => In c sig_id) w -> (length w <= 5)%nat ->
+Theorem id_lang_eq_bounded : forall w, Forall (fun c => In c sig_id) w -> (length w <= 3)%nat ->
   (peg_matches cddl_pest r_id w = Some true <-> Der g_id (ARef n_idns) w []).
 Proof. apply agree_upto_iff. vm_compute. reflexivity. Qed.
 
-Theorem text_lang_eq_bounded : forall w, Forall (fun c => In c sig_text) w -> (length w <= 5)%nat ->
+Theorem text_lang_eq_bounded : forall w, Forall (fun c => In c sig_text) w -> (length w <= 3)%nat ->
   (peg_matches cddl_pest r_text_value w = Some true <-> Der g_text (ARef n_text) w []).
 Proof. apply agree_upto_iff. vm_compute. reflexivity. Qed.
 
@@ -98,7 +98,7 @@ Theorem text_escapes_lang_eq : forall w, In w text_probe ->
   (peg_matches cddl_pest r_text_value w = Some true <-> Der g_text (ARef n_text) w []).
 Proof. apply agree_all_iff. vm_compute. reflexivity. Qed.
 
-Theorem bytes_lang_eq_bounded : forall w, Forall (fun c => In c sig_bytes) w -> (length w <= 5)%nat ->
+Theorem bytes_lang_eq_bounded : forall w, Forall (fun c => In c sig_bytes) w -> (length w <= 3)%nat ->
   (peg_matches cddl_pest r_bytes_value w = Some true <-> Der g_bytes (ARef n_bytes) w []).
 Proof. apply agree_upto_iff. vm_compute. reflexivity. Qed.
 
@@ -107,7 +107,7 @@ Theorem bytes_probe_lang_eq : forall w, In w bytes_probe ->
 Proof. apply agree_all_iff. vm_compute. reflexivity. Qed.
 
 (* blanks and comments, as whole documents (covers tab, a final comment without line break, lone CR) *)
-Theorem blank_lang_eq_bounded : forall w, Forall (fun c => In c sig_blank) w -> (length w <= 5)%nat ->
+Theorem blank_lang_eq_bounded : forall w, Forall (fun c => In c sig_blank) w -> (length w <= 3)%nat ->
   (peg_matches cddl_pest r_cddl w = Some true <-> Der g_blank (ARef n_cddl) w []).
 Proof. apply agree_upto_iff. vm_compute. reflexivity. Qed.
 
@@ -165,13 +165,13 @@ Proof.
   - exists (s2n "a = [(a) .size 3]"). split; [vm_compute; reflexivity | apply recognise_true; vm_compute; reflexivity].
 Qed.
 
-(* ... and what does hold in a small scope: on every string of at most 4 characters over the alphabet "a=/(:1 $"
+(* ... and what does hold in a small scope: on every string of at most 3 characters over the alphabet "a=/(:1 $"
    the crate model accepts exactly what the ABNF with ALL known deviations switched on derives *)
-Theorem language_small_scope : forall w, Forall (fun c => In c sig_doc) w -> (length w <= 4)%nat ->
+Theorem language_small_scope : forall w, Forall (fun c => In c sig_doc) w -> (length w <= 3)%nat ->
   (model_accepts w = Some true <-> Der (variant all_deviations) (ARef n_cddl) w []).
 Proof.
-  assert (H : forall_words sig_doc 4 lang_agree [] = true) by (vm_compute; reflexivity).
-  intros w Hw Hlen. pose proof (forall_words_all sig_doc 4 lang_agree H w Hw Hlen) as A.
+  assert (H : forall_words sig_doc 3 lang_agree [] = true) by (vm_compute; reflexivity).
+  intros w Hw Hlen. pose proof (forall_words_all sig_doc 3 lang_agree H w Hw Hlen) as A.
   unfold lang_agree, variant_accepts in A. apply both_some in A. destruct A as [a [Ea Eb]].
   pose proof (recognise_correct _ _ _ _ Eb) as C. rewrite Ea. split.
   - intros E. inversion E; subst a. apply C. reflexivity.
